@@ -256,6 +256,39 @@ theorem assemble_total (c : Cell) (r : Option Reaction) (inc : Bool) (n : Nat) (
     have hs := transferAll_conserves MIN_TOTAL_SS c.ss (transferAll MIN_TOTAL t6 c.pp).1 e
     grind
 
+/-- `solution_check` leaves H, O and the charge alone, keeps every key, and moves each master total by at most
+MIN_TOTAL (a total is either kept or was within ±MIN_TOTAL and becomes 0) -/
+theorem solutionCheck_small (t : Totals) :
+    (solutionCheck t).1.h = t.h ∧ (solutionCheck t).1.o = t.o ∧ (solutionCheck t).1.cb = t.cb ∧
+    (solutionCheck t).1.masters.map (·.1) = t.masters.map (·.1) ∧
+    ∀ i (h : i < t.masters.length),
+      absR (((solutionCheck t).1.masters[i]'(by simp [solutionCheck]; exact h)).2 - (t.masters[i]).2) ≤ MIN_TOTAL := by
+  refine ⟨rfl, rfl, rfl, ?_, ?_⟩
+  · simp only [solutionCheck, List.map_map]
+    apply List.map_congr_left
+    intro p _
+    by_cases hp : absR p.2 ≤ MIN_TOTAL <;> simp [hp]
+  · intro i h
+    simp only [solutionCheck, List.getElem_map]
+    by_cases hp : absR (t.masters[i]).2 ≤ MIN_TOTAL
+    · simp only [hp, if_true]
+      unfold absR at hp ⊢
+      have hm : (0 : Rat) ≤ MIN_TOTAL := by decide +kernel
+      split at hp <;> split <;> grind
+    · simp only [hp, if_false]
+      unfold absR
+      have hm : (0 : Rat) ≤ MIN_TOTAL := by decide +kernel
+      split <;> grind
+
+/-- `step()` reports MASS_BALANCE exactly when some master total is below −MIN_TOTAL -/
+theorem solutionCheck_flag (t : Totals) :
+    (solutionCheck t).2 = true ↔ ∃ p ∈ t.masters, p.2 < -MIN_TOTAL := by
+  simp [solutionCheck, List.any_eq_true]
+
+example : (solutionCheck { masters := [("Ca", 1/10^30), ("Cl", 2/1000), ("Na", -(1/10^26))] }).1.masters =
+    [("Ca", 0), ("Cl", 2/1000), ("Na", 0)] ∧
+    (solutionCheck { masters := [("Ca", -(1/1000))] }).2 = true := by decide +kernel
+
 /-! ## what `saver()` writes back -/
 
 /-- Exact bookkeeping identity: inventory(after) − inventory(before) − reaction = residual of the balance row of the
